@@ -10,7 +10,7 @@ open Iox2.C16.SlotMapP (abs WInv)
 
 /-! ### small lemmas -/
 
-theorem mem_items_iff {m : SlotMap.St Nat} {k e : Nat} :
+theorem sl_mem_items_iff {m : SlotMap.St Nat} {k e : Nat} :
     (k, e) ∈ SlotMap.items m ↔ abs m k = some e := by
   rw [Iox2.C16.SlotMapP.mem_items]
   constructor
@@ -22,7 +22,7 @@ theorem mem_items_iff {m : SlotMap.St Nat} {k e : Nat} :
     rw [Iox2.C16.SlotMapP.abs_oob (List.getElem?_eq_none hle)] at h
     cases h
 
-theorem firstFree_spec {α : Type} : ∀ (l : List (Option α)) (k i : Nat),
+theorem sl_firstFree_spec {α : Type} : ∀ (l : List (Option α)) (k i : Nat),
     firstFree l k = some i → k ≤ i ∧ l[i - k]? = some none
   | [], k, i, h => by simp [firstFree] at h
   | none :: r, k, i, h => by
@@ -30,12 +30,12 @@ theorem firstFree_spec {α : Type} : ∀ (l : List (Option α)) (k i : Nat),
     subst h; simp
   | some a :: r, k, i, h => by
     simp only [firstFree] at h
-    obtain ⟨h1, h2⟩ := firstFree_spec r (k + 1) i h
+    obtain ⟨h1, h2⟩ := sl_firstFree_spec r (k + 1) i h
     refine ⟨by omega, ?_⟩
     have : i - k = (i - (k + 1)) + 1 := by omega
     rw [this]; simpa using h2
 
-theorem getS_append (w : World) (s t : Nat) (X : Sub) (hnone : getS w s = none) :
+theorem sl_getS_append (w : World) (s t : Nat) (X : Sub) (hnone : getS w s = none) :
     getS { w with subs := w.subs ++ [(s, X)] } t = if t = s then some X else getS w t := by
   unfold getS at *
   simp only [List.find?_append, List.find?_cons, List.find?_nil]
@@ -49,7 +49,7 @@ theorem getS_append (w : World) (s t : Nat) (X : Sub) (hnone : getS w s = none) 
     have : ¬ s = t := fun e => h e.symm
     cases hf : w.subs.find? (·.1 = t) <;> simp [this]
 
-theorem getS_filter (w : World) (s t : Nat) :
+theorem sl_getS_filter (w : World) (s t : Nat) :
     getS { w with subs := w.subs.filter fun e => e.1 ≠ s } t =
       if t = s then none else getS w t := by
   unfold getS
@@ -66,25 +66,30 @@ theorem getS_filter (w : World) (s t : Nat) :
     funext x
     by_cases hx : x.1 = t
     · have : ¬ x.1 = s := fun e => h (hx.symm.trans e)
-      simp [hx, this, h]
+      simp [hx, h]
     · simp [hx]
 
 /-! ### `detachReceiver`, `subDestroyKeys` by observations -/
 
 /-- what happens to a connection whose receiver side goes away -/
-def detR (oc : Option Conn) : Option Conn :=
+def slDetR (oc : Option Conn) : Option Conn :=
   match oc with
   | none => none
   | some c => if c.sAtt then some { c with rAtt := false } else none
 
-theorem detR_idem (oc : Option Conn) : detR (detR oc) = detR oc := by
+theorem slDetR_some_true {cn : Conn} (h : cn.sAtt = true) :
+    slDetR (some cn) = some { cn with rAtt := false } := if_pos h
+theorem slDetR_some_false {cn : Conn} (h : cn.sAtt = false) : slDetR (some cn) = none := by
+  simp [slDetR, h]
+
+theorem slDetR_idem (oc : Option Conn) : slDetR (slDetR oc) = slDetR oc := by
   cases oc with
   | none => rfl
   | some c =>
-    cases h : c.sAtt <;> simp [detR, h]
+    cases h : c.sAtt <;> simp [slDetR, h]
 
-theorem getC_detachReceiver (w : World) (p s a b : Nat) :
-    getC (detachReceiver w p s) a b = if a = p ∧ b = s then detR (getC w a b) else getC w a b := by
+theorem sl_getC_detachReceiver (w : World) (p s a b : Nat) :
+    getC (detachReceiver w p s) a b = if a = p ∧ b = s then slDetR (getC w a b) else getC w a b := by
   rw [detachReceiver_eq]
   cases hC : getC w p s with
   | none =>
@@ -101,16 +106,16 @@ theorem getC_detachReceiver (w : World) (p s a b : Nat) :
       rw [getC_setC]
       simp only [hpid, hsid]
       split
-      · rename_i h; rw [h.1, h.2, hC]; simp [detR, hsa]
+      · rename_i h; rw [h.1, h.2, hC]; simp [slDetR, hsa, hpid, hsid]
       · rfl
     | false =>
       simp only [Bool.false_eq_true, if_false]
       rw [getC_delC]
       split
-      · rename_i h; rw [h.1, h.2, hC]; simp [detR, hsa]
+      · rename_i h; rw [h.1, h.2, hC]; simp [slDetR, hsa]
       · rfl
 
-theorem detachReceiver_fields (w : World) (p s : Nat) :
+theorem sl_detachReceiver_fields (w : World) (p s : Nat) :
     (detachReceiver w p s).cfg = w.cfg ∧ (detachReceiver w p s).pubReg = w.pubReg ∧
     (detachReceiver w p s).subReg = w.subReg ∧ (detachReceiver w p s).pubs = w.pubs ∧
     (detachReceiver w p s).subs = w.subs := by
@@ -121,7 +126,7 @@ theorem detachReceiver_fields (w : World) (p s : Nat) :
     simp only
     split <;> exact ⟨rfl, rfl, rfl, rfl, rfl⟩
 
-theorem nodup_detachReceiver {w : World} (p s : Nat)
+theorem sl_nodup_detachReceiver {w : World} (p s : Nat)
     (hn : w.conns.Pairwise fun a b => ¬ (a.pid = b.pid ∧ a.sid = b.sid)) :
     (detachReceiver w p s).conns.Pairwise fun a b => ¬ (a.pid = b.pid ∧ a.sid = b.sid) := by
   rw [detachReceiver_eq]
@@ -139,36 +144,730 @@ theorem subDestroyKeys_obs (s : Nat) : ∀ (l : List (Nat × Nat)) (w : World),
     (subDestroyKeys w s l).subReg = w.subReg ∧ (subDestroyKeys w s l).pubs = w.pubs ∧
     (subDestroyKeys w s l).subs = w.subs ∧
     (∀ a b, getC (subDestroyKeys w s l) a b =
-      if b = s ∧ (∃ k, (k, a) ∈ l) then detR (getC w a b) else getC w a b) ∧
+      if b = s ∧ a ∈ l.map (·.2) then slDetR (getC w a b) else getC w a b) ∧
     ((subDestroyKeys w s l).conns.Pairwise fun a b => ¬ (a.pid = b.pid ∧ a.sid = b.sid))
   | [], w, hn => by
     refine ⟨rfl, rfl, rfl, rfl, rfl, ?_, hn⟩
     intro a b; simp [subDestroyKeys]
   | (k, p) :: r, w, hn => by
-    obtain ⟨f1, f2, f3, f4, f5⟩ := detachReceiver_fields w p s
+    obtain ⟨f1, f2, f3, f4, f5⟩ := sl_detachReceiver_fields w p s
     obtain ⟨g1, g2, g3, g4, g5, g6, g7⟩ :=
-      subDestroyKeys_obs s r (detachReceiver w p s) (nodup_detachReceiver p s hn)
+      subDestroyKeys_obs s r (detachReceiver w p s) (sl_nodup_detachReceiver p s hn)
     have e : subDestroyKeys w s ((k, p) :: r) = subDestroyKeys (detachReceiver w p s) s r := rfl
     rw [e]
     refine ⟨g1.trans f1, g2.trans f2, g3.trans f3, g4.trans f4, g5.trans f5, ?_, g7⟩
     intro a b
-    rw [g6, getC_detachReceiver]
+    rw [g6, sl_getC_detachReceiver]
     by_cases hb : b = s
     · by_cases ha : a = p
-      · have h1 : ∃ k', (k', a) ∈ (k, p) :: r := ⟨k, by rw [ha]; exact List.mem_cons_self⟩
-        simp only [hb, ha, and_self, if_true, true_and, h1]
-        rw [← ha]
+      · subst ha; subst hb
+        simp only [and_self, if_true, true_and, List.map_cons, List.mem_cons]
         split
-        · exact detR_idem _
+        · exact slDetR_idem _
         · rfl
-      · have h1 : (∃ k', (k', a) ∈ (k, p) :: r) ↔ ∃ k', (k', a) ∈ r := by
-          constructor
-          · rintro ⟨k', hk'⟩
-            rcases List.mem_cons.mp hk' with h | h
-            · exact absurd (Prod.mk.inj h).2 ha
-            · exact ⟨k', h⟩
-          · rintro ⟨k', hk'⟩; exact ⟨k', List.mem_cons_of_mem _ hk'⟩
-        simp only [hb, ha, false_and, if_false, true_and, h1]
+      · simp only [hb, ha, false_and, if_false, true_and, List.map_cons, List.mem_cons, false_or]
     · simp [hb]
+
+/-! ### congruences across a change of the ghost context -/
+
+theorem SubTop.slChG {G G' : GT} {w : World} {s : Nat} {S : Sub} (h : SubTop G w s S)
+    (hh : G'.hole = G.hole) (hp : G'.np = G.np) : SubTop G' w s S :=
+  ⟨h.lenC, h.lenSnap, h.aliveEx, h.dead, h.winv, by rw [hh, hp]; exact h.stor, h.inj,
+   by rw [hh]; exact h.conn, by rw [hp]; exact h.snap, h.tbrNodup, by rw [hh]; exact h.tbr⟩
+
+theorem SubTop.slChS {G : GT} {w : World} {s : Nat} {S S' : Sub} (h : SubTop G w s S)
+    (e1 : S'.ex = S.ex) (e2 : S'.conns = S.conns) (e3 : S'.snap = S.snap)
+    (e4 : S'.storage = S.storage) (e5 : S'.tbr = S.tbr) (ha : S'.alive = true → S'.ex = true) :
+    SubTop G w s S' :=
+  ⟨by rw [e2]; exact h.lenC, by rw [e3]; exact h.lenSnap, ha, by rw [e1, e4]; exact h.dead,
+   by rw [e4]; exact h.winv, by rw [e4, e2, e3]; exact h.stor, by rw [e4]; exact h.inj,
+   by rw [e2, e4, e3]; exact h.conn, by rw [e3]; exact h.snap, by rw [e5]; exact h.tbrNodup,
+   by rw [e5, e4, e2]; exact h.tbr⟩
+
+/-- registered subscribers stay registered, at the same slot, and do not come to life -/
+def SlSubsOK (G G' : GT) (w w' : World) : Prop :=
+  ∀ t T, getS w t = some T → G.ns ≠ some t → SReg w t T →
+    ∃ T', getS w' t = some T' ∧ T'.slot = T.slot ∧ SReg w' t T' ∧ G'.ns ≠ some t ∧
+      (T'.alive = true → T.alive = true)
+
+theorem PubTop.slCongr {G G' : GT} {w w' : World} {p : Nat} {P : Pub} (h : PubTop G w p P)
+    (hcfg : w'.cfg = w.cfg) (hs : SlSubsOK G G' w w')
+    (hc : ∀ t cn, getC w p t = some cn → cn.sAtt = true → G.ns ≠ some t →
+      ∃ cn', getC w' p t = some cn' ∧ cn'.sAtt = true) : PubTop G' w' p P := by
+  refine ⟨by rw [hcfg]; exact h.lenC, by rw [hcfg]; exact h.lenSnap, h.aliveEx, h.dead, ?_, ?_⟩
+  · intro i s hi
+    obtain ⟨S, hS, h1, h2, h3, h4, cn, h5, h6⟩ := h.conn i s hi
+    obtain ⟨S', hS', e1, e2, e3, e4⟩ := hs s S hS h3 h2
+    obtain ⟨cn', h7, h8⟩ := hc s cn h5 h6 h3
+    exact ⟨S', hS', by rw [e1]; exact h1, e2, e3, fun ha => h4 (e4 ha), cn', h7, h8⟩
+  · intro i e hi
+    obtain ⟨S, hS, h1, h2, h3⟩ := h.snap i e hi
+    obtain ⟨S', hS', e1, e2, e3, _⟩ := hs e.sid S hS h3 h2
+    exact ⟨S', hS', by rw [e1]; exact h1, e2, e3⟩
+
+def SlSubAccOK (w : World) (S : Sub) : Prop :=
+  (S.ex = false → S.held = []) ∧ (∀ h ∈ S.held, abs S.storage h.key = some h.pid) ∧
+  (S.alive = true → ∀ h ∈ S.held, ∃ P, getP w h.pid = some P ∧ P.payload.getD h.chunk 0 = h.tag)
+
+theorem Inv.slConnFacts {G : GT} {A : GA} {w : World} (hi : Inv G A w) {a b : Nat} {cn : Conn}
+    (hcn : getC w a b = some cn) :
+    ∃ P S, getP w a = some P ∧ getS w b = some S ∧ ConnTop cn P S ∧ ConnAcc w.cfg cn P S := by
+  obtain ⟨P, S, hP, hS, ct⟩ := hi.top.conns a b cn hcn
+  exact ⟨P, S, hP, hS, ct, hi.acc.conns a b cn hcn P S hP hS⟩
+
+/-- The publishers do not change; subscribers and connections do. -/
+theorem sl_inv_of_sub_change {G G' : GT} {A : GA} {w w' : World} (hi : Inv G A w)
+    (hcfg : w'.cfg = w.cfg) (hgP : ∀ q, getP w' q = getP w q)
+    (hreg : RegOK G' w') (hsok : SlSubsOK G G' w w')
+    (hcS : ∀ p t cn, getC w p t = some cn → cn.sAtt = true → G.ns ≠ some t →
+      ∃ cn', getC w' p t = some cn' ∧ cn'.sAtt = true ∧ cn'.used = cn.used)
+    (hsub : ∀ t T', getS w' t = some T' → SubTop G' w' t T' ∧ SlSubAccOK w T')
+    (hconn : ∀ a b cn', getC w' a b = some cn' →
+      ∃ P S', getP w a = some P ∧ getS w' b = some S' ∧ ConnTop cn' P S' ∧
+        ConnAcc w.cfg cn' P S') :
+    Inv G' A w' := by
+  refine ⟨⟨hreg, ?_, fun t T' h => (hsub t T' h).1, ?_⟩, ⟨?_, ?_, ?_⟩⟩
+  · intro p P hP
+    rw [hgP] at hP
+    apply (hi.top.pubs p P hP).slCongr hcfg hsok
+    intro t cn h1 h2 h3
+    obtain ⟨cn', a, b, _⟩ := hcS p t cn h1 h2 h3
+    exact ⟨cn', a, b⟩
+  · intro a b cn hcn
+    obtain ⟨P, S', hP, hS', ct, _⟩ := hconn a b cn hcn
+    exact ⟨P, S', by rw [hgP]; exact hP, hS', ct⟩
+  · intro p P hP
+    rw [hgP] at hP
+    obtain ⟨h1, h2⟩ := hi.acc.pubs p P hP
+    refine ⟨fun hx => (h1 hx).congr ?_, h2⟩
+    intro t c ht
+    obtain ⟨i, hi'⟩ := List.mem_iff_getElem?.mp ht
+    obtain ⟨S, _, _, _, hns, _, cn, hcn, hsa⟩ := (hi.top.pubs p P hP).conn i t hi'
+    obtain ⟨cn', hcn', _, hu⟩ := hcS p t cn hcn hsa hns
+    unfold usedBit
+    rw [hcn', hcn]
+    simp only [hu]
+  · intro t T' hT'
+    obtain ⟨h1, h2, h3⟩ := (hsub t T' hT').2
+    refine ⟨h1, h2, fun ha x hx => ?_⟩
+    rw [hgP]; exact h3 ha x hx
+  · intro a b cn hcn P S hP hS
+    obtain ⟨P0, S0, hP0, hS0, _, ca⟩ := hconn a b cn hcn
+    rw [hgP, hP0] at hP; cases hP
+    rw [hS0] at hS; cases hS
+    rw [hcfg]; exact ca
+
+/-- an untouched subscriber -/
+theorem sl_sub_untouched {G G' : GT} {A : GA} {w w' : World} (hi : Inv G A w)
+    (hh : G'.hole = G.hole) (hp : G'.np = G.np)
+    (hcfg : w'.cfg = w.cfg) (hrp : w'.pubReg = w.pubReg) (hgP : ∀ q, getP w' q = getP w q)
+    {t : Nat} {T : Sub} (hT : getS w t = some T)
+    (hc : ∀ q cn, getC w q t = some cn → cn.rAtt = true →
+      ∃ cn', getC w' q t = some cn' ∧ cn'.rAtt = true) :
+    SubTop G' w' t T ∧ SlSubAccOK w T :=
+  ⟨((hi.top.subs t T hT).slChG hh hp).congr hcfg hrp (PubsKept.of_eq hgP) hc, hi.acc.subs t T hT⟩
+
+/-! ### `.dsub`: unregistration -/
+
+/-- `.dsub`: the port object is dropped and leaves the registry -/
+theorem dsub_unregister_inv {G : GT} {A : GA} {w : World} {s : Nat} {S : Sub}
+    (hi : Inv G A w) (hns : G.ns = none) (hS : getS w s = some S) (ha : S.alive = true) :
+    Inv G A { setS w s { S with alive := false } with subReg := w.subReg.remove S.slot } := by
+  generalize hS' : ({ S with alive := false } : Sub) = S'
+  have hS'f : S'.alive = false ∧ S'.ex = S.ex ∧ S'.slot = S.slot ∧ S'.conns = S.conns ∧
+      S'.snap = S.snap ∧ S'.tbr = S.tbr ∧ S'.held = S.held ∧ S'.storage = S.storage := by
+    subst hS'; simp
+  obtain ⟨f1, f2, f3, f4, f5, f6, f7, f8⟩ := hS'f
+  have hres : ∃ w', { setS w s S' with subReg := w.subReg.remove S.slot } = w' ∧
+      w'.cfg = w.cfg ∧ w'.pubReg = w.pubReg ∧
+      w'.subReg.slots = w.subReg.slots.set S.slot none ∧ (∀ q, getP w' q = getP w q) ∧
+      (∀ t, getS w' t = if t = s then some S' else getS w t) ∧
+      (∀ a b, getC w' a b = getC w a b) ∧ w'.conns = w.conns := by
+    refine ⟨_, rfl, rfl, rfl, rfl, fun _ => rfl, ?_, fun _ _ => rfl, rfl⟩
+    intro t
+    show getS (setS w s S') t = _
+    simp [hS]
+  obtain ⟨w', hw'e, hcfg, hrp, hrs, hgP, hgS, hgC, hcs⟩ := hres
+  rw [hw'e]
+  have r := hi.top.reg
+  have hnst : ∀ t, G.ns ≠ some t := by intro t; rw [hns]; exact fun h => by cases h
+  obtain ⟨e0, he0, he0s⟩ : ∃ e, w.subReg.slots[S.slot]? = some (some e) ∧ e.sid = s := by
+    rcases r.r3s s S hS (hnst s) with h | h
+    · rw [ha] at h; cases h
+    · exact h
+  have hsl : ∀ (i : Nat) (e : SubEntry), w'.subReg.slots[i]? = some (some e) ↔
+      (i ≠ S.slot ∧ w.subReg.slots[i]? = some (some e)) := by
+    intro i e
+    rw [hrs, List.getElem?_set]
+    by_cases h : S.slot = i
+    · simp only [h, if_true]
+      split <;> simp
+    · simp only [h, if_false]
+      constructor
+      · exact fun h' => ⟨fun e => h e.symm, h'⟩
+      · exact fun h' => h'.2
+  have keep : ∀ t T, t ≠ s → getS w t = some T → SReg w t T → SReg w' t T := by
+    intro t T hts hT hsr
+    rcases hsr with h | ⟨e, he, hes⟩
+    · exact Or.inl h
+    · refine Or.inr ⟨e, (hsl _ e).mpr ⟨?_, he⟩, hes⟩
+      intro heq
+      rw [heq, he0] at he
+      have : e0 = e := Option.some.inj (Option.some.inj he)
+      apply hts; rw [← hes, ← this]; exact he0s
+  have hgSo : ∀ t, t ≠ s → getS w' t = getS w t := by intro t h; rw [hgS]; simp [h]
+  have hgSs : getS w' s = some S' := by rw [hgS]; simp
+  apply sl_inv_of_sub_change hi hcfg hgP
+  · -- registry
+    refine ⟨by rw [hrp, hcfg]; exact r.lenP, by rw [hrs, hcfg, List.length_set]; exact r.lenS,
+      ?_, ?_, ?_, ?_, by rw [hrp]; exact r.npFresh, ?_, ?_, ?_, by rw [hcs]; exact r.nodup⟩
+    · intro i p hp
+      rw [hrp] at hp
+      obtain ⟨P, hP, h1, h2⟩ := r.r1 i p hp
+      exact ⟨P, by rw [hgP]; exact hP, h1, h2⟩
+    · intro i e he
+      obtain ⟨hne, he'⟩ := (hsl i e).mp he
+      obtain ⟨T, hT, h1, h2⟩ := r.r2 i e he'
+      have : e.sid ≠ s := by
+        intro h; rw [h, hS] at hT; cases hT; exact hne h2.symm
+      exact ⟨T, by rw [hgSo _ this]; exact hT, h1, h2⟩
+    · intro p P hP hnp
+      rw [hgP] at hP
+      have := r.r3p p P hP hnp
+      unfold PReg at *; rw [hrp]; exact this
+    · intro t T' hT' _
+      by_cases hts : t = s
+      · subst hts; rw [hgSs] at hT'; cases hT'; exact Or.inl f1
+      · rw [hgSo t hts] at hT'
+        exact keep t T' hts hT' (r.r3s t T' hT' (hnst t))
+    · intro t ht; exact absurd ht (hnst t)
+    · intro p hp
+      obtain ⟨P, hP, h1⟩ := r.npAlive p hp
+      exact ⟨P, by rw [hgP]; exact hP, h1⟩
+    · intro t ht; exact absurd ht (hnst t)
+  · -- SlSubsOK
+    intro t T hT hn hsr
+    by_cases hts : t = s
+    · subst hts; rw [hS] at hT; cases hT
+      exact ⟨S', hgSs, f3, Or.inl f1, hn, fun h => by rw [f1] at h; cases h⟩
+    · exact ⟨T, by rw [hgSo t hts]; exact hT, rfl, keep t T hts hT hsr, hn, id⟩
+  · intro p t cn hcn hsa _
+    exact ⟨cn, by rw [hgC]; exact hcn, hsa, rfl⟩
+  · intro t T' hT'
+    by_cases hts : t = s
+    · subst hts; rw [hgSs] at hT'; cases hT'
+      obtain ⟨h1, h2⟩ := sl_sub_untouched (G' := G) hi rfl rfl hcfg hrp hgP hS
+        (fun q cn h1 h2 => ⟨cn, by rw [hgC]; exact h1, h2⟩)
+      refine ⟨h1.slChS f2 f4 f5 f8 f6 (fun h => by rw [f1] at h; cases h), ?_⟩
+      obtain ⟨g1, g2, _⟩ := h2
+      exact ⟨by rw [f2, f7]; exact g1, by rw [f7, f8]; exact g2, fun h => by rw [f1] at h; cases h⟩
+    · rw [hgSo t hts] at hT'
+      exact sl_sub_untouched hi rfl rfl hcfg hrp hgP hT'
+        (fun q cn h1 h2 => ⟨cn, by rw [hgC]; exact h1, h2⟩)
+  · intro a b cn hcn
+    rw [hgC] at hcn
+    obtain ⟨P, Sb, hP, hSb, ct, ca⟩ := hi.slConnFacts hcn
+    by_cases hbs : b = s
+    · subst hbs; rw [hS] at hSb; cases hSb
+      have hh : heldOf S' cn.pid = heldOf S cn.pid := by unfold heldOf; rw [f7]
+      have hf : flight cn S' = flight cn S := by unfold flight; rw [hh]
+      refine ⟨P, S', hP, hgSs, ⟨ct.att, ct.sAtt, by rw [f8]; exact ct.rAtt⟩,
+        ⟨ca.usedLen, ca.subCap, ca.borrowMax, ca.total, by rw [hh]; exact ca.borrow,
+         by rw [hf]; exact ca.nodup, by rw [hf]; exact ca.used,
+         fun h1 h2 => ⟨(ca.idle h1 h2).1, fun h => by rw [f1] at h; cases h⟩⟩⟩
+    · exact ⟨P, Sb, hP, by rw [hgSo b hbs]; exact hSb, ct, ca⟩
+
+/-! ### all connections of the storage are closed -/
+
+theorem sl_getP_of_pubs {w w' : World} (h : w'.pubs = w.pubs) (q : Nat) : getP w' q = getP w q := by
+  unfold getP; rw [h]
+theorem sl_getS_of_subs {w w' : World} (h : w'.subs = w.subs) (q : Nat) : getS w' q = getS w q := by
+  unfold getS; rw [h]
+
+theorem subDestroyKeys_items {G : GT} {w : World} {s : Nat} {S : Sub} (ht : TopInv G w)
+    (hS : getS w s = some S) (a b : Nat) :
+    getC (subDestroyKeys w s (SlotMap.items S.storage)) a b =
+      if b = s then slDetR (getC w a b) else getC w a b := by
+  obtain ⟨_, _, _, _, _, g6, _⟩ := subDestroyKeys_obs s (SlotMap.items S.storage) w ht.reg.nodup
+  rw [g6]
+  by_cases hb : b = s
+  · subst hb
+    by_cases hm : a ∈ (SlotMap.items S.storage).map (·.2)
+    · simp only [hm, and_self, if_true]
+    · simp only [hm, and_false, if_false, if_true]
+      cases hC : getC w a b with
+      | none => rfl
+      | some cn =>
+        obtain ⟨hpid, _, _⟩ := getC_some hC
+        obtain ⟨P, S0, _, hS0, ct⟩ := ht.conns a b cn hC
+        rw [hS] at hS0; cases hS0
+        have hr : cn.rAtt = false := by
+          cases h : cn.rAtt with
+          | false => rfl
+          | true =>
+            exfalso
+            obtain ⟨k, hk⟩ := ct.rAtt.mp h
+            apply hm
+            rw [hpid] at hk
+            exact List.mem_map.mpr ⟨(k, a), sl_mem_items_iff.mpr hk, rfl⟩
+        have hsa : cn.sAtt = true := by
+          rcases ct.att with h | h
+          · exact h
+          · rw [hr] at h; cases h
+        have e : ({ cn with rAtt := false } : Conn) = cn := by
+          cases cn; simp only at hr; subst hr; rfl
+        show some cn = (if cn.sAtt = true then some { cn with rAtt := false } else none)
+        rw [if_pos hsa, e]
+  · simp only [hb, false_and, if_false]
+
+/-! ### `subDestroyIfUnreferenced` -/
+
+theorem subDestroyIfUnreferenced_inv {G : GT} {A : GA} {w : World} {s : Nat}
+    (hi : Inv G A w) (hh : G.hole = none) : Inv G A (subDestroyIfUnreferenced w s) := by
+  have _ := hh
+  cases hS : getS w s with
+  | none => simp only [subDestroyIfUnreferenced, hS]; exact hi
+  | some S =>
+    simp only [subDestroyIfUnreferenced, hS]
+    split
+    · exact hi
+    · rename_i hcond
+      have hcond' : S.alive = false ∧ S.held = [] ∧ S.ex = true := by
+        cases h1 : S.alive <;> cases h2 : S.ex <;> cases h3 : S.held <;>
+          simp [h1, h2, h3] at hcond ⊢
+      obtain ⟨hal, hheld, hex⟩ := hcond'
+      have st := hi.top.subs s S hS
+      have r := hi.top.reg
+      generalize hS' : ({ S with
+        ex := false, storage := SlotMap.init 0, tbr := [],
+        conns := S.conns.map fun _ => none } : Sub) = S'
+      have hS'f : S'.alive = S.alive ∧ S'.ex = false ∧ S'.slot = S.slot ∧
+          S'.conns = S.conns.map (fun _ => none) ∧
+          S'.snap = S.snap ∧ S'.tbr = [] ∧ S'.held = S.held ∧ S'.storage = SlotMap.init 0 := by
+        subst hS'; simp
+      obtain ⟨f1, f2, f3, f4, f5, f6, f7, f8⟩ := hS'f
+      have hres : ∃ w', setS (subDestroyKeys w s (SlotMap.items S.storage)) s S' = w' ∧
+          w'.cfg = w.cfg ∧ w'.pubReg = w.pubReg ∧ w'.subReg = w.subReg ∧
+          (∀ q, getP w' q = getP w q) ∧
+          (∀ t, getS w' t = if t = s then some S' else getS w t) ∧
+          (∀ a b, getC w' a b = if b = s then slDetR (getC w a b) else getC w a b) ∧
+          w'.conns.Pairwise fun a b => ¬ (a.pid = b.pid ∧ a.sid = b.sid) := by
+        obtain ⟨g1, g2, g3, g4, g5, _, g7⟩ :=
+          subDestroyKeys_obs s (SlotMap.items S.storage) w r.nodup
+        refine ⟨_, rfl, g1, g2, g3, fun q => sl_getP_of_pubs g4 q, ?_, ?_, g7⟩
+        · intro t
+          rw [getS_setS, sl_getS_of_subs g5, sl_getS_of_subs g5, hS]
+          rfl
+        · intro a b
+          rw [getC_setS]
+          exact subDestroyKeys_items hi.top hS a b
+      obtain ⟨w', hw'e, hcfg, hrp, hrs, hgP, hgS, hgC, hnd⟩ := hres
+      rw [hw'e]
+      have hgSo : ∀ t, t ≠ s → getS w' t = getS w t := by intro t h; rw [hgS]; simp [h]
+      have hgSs : getS w' s = some S' := by rw [hgS]; simp
+      have hgCo : ∀ a b, b ≠ s → getC w' a b = getC w a b := by intro a b h; rw [hgC]; simp [h]
+      have sreg' : ∀ t T, SReg w t T → SReg w' t T := by
+        intro t T; unfold SReg; rw [hrs]; exact id
+      have hsk : SubsKept w w' := by
+        intro t T hT
+        by_cases hts : t = s
+        · subst hts; rw [hS] at hT; cases hT
+          exact ⟨S', hgSs, f3, f1⟩
+        · exact ⟨T, by rw [hgSo t hts]; exact hT, rfl, rfl⟩
+      apply sl_inv_of_sub_change hi hcfg hgP
+      · exact r.congr hcfg hrp hrs (PubsKept.of_eq hgP) hsk
+          (fun q P' h => ⟨P', by rw [← hgP]; exact h⟩)
+          (fun t T' h => by
+            by_cases hts : t = s
+            · subst hts; exact ⟨S, hS⟩
+            · rw [hgSo t hts] at h; exact ⟨T', h⟩) hnd
+      · intro t T hT hn hsr
+        by_cases hts : t = s
+        · subst hts; rw [hS] at hT; cases hT
+          refine ⟨S', hgSs, f3, ?_, hn, by rw [f1]; exact id⟩
+          have := sreg' t S hsr
+          unfold SReg at *; rw [f1, f3]; exact this
+        · exact ⟨T, by rw [hgSo t hts]; exact hT, rfl, sreg' t T hsr, hn, id⟩
+      · intro p t cn hcn hsa _
+        by_cases hts : t = s
+        · subst hts
+          refine ⟨{ cn with rAtt := false }, ?_, hsa, rfl⟩
+          rw [hgC, hcn]; simp [slDetR, hsa]
+        · exact ⟨cn, by rw [hgCo p t hts]; exact hcn, hsa, rfl⟩
+      · intro t T' hT'
+        by_cases hts : t = s
+        · subst hts; rw [hgSs] at hT'; cases hT'
+          refine ⟨⟨by rw [f4, List.length_map, hcfg]; exact st.lenC,
+            by rw [f5, hcfg]; exact st.lenSnap,
+            by rw [f1, hal]; exact (fun h => by cases h),
+            (fun _ k => by rw [f8]; exact abs_init_none 0 k),
+            by rw [f8]; exact winv_init 0, ?_, ?_, ?_, ?_,
+            by rw [f6]; exact List.nodup_nil, by rw [f6]; exact (fun k hk => by cases hk)⟩, ?_⟩
+          · intro k p hk; rw [f8, abs_init_none] at hk; cases hk
+          · intro k1 k2 p hk; rw [f8, abs_init_none] at hk; cases hk
+          · intro j k hj
+            rw [f4, List.getElem?_map] at hj
+            cases hc : S.conns[j]? <;> simp [hc] at hj
+          · intro j p hj
+            rw [f5] at hj
+            obtain ⟨P, hP, h1, h2, h3⟩ := st.snap j p hj
+            refine ⟨P, by rw [hgP]; exact hP, h1, ?_, h3⟩
+            unfold PReg at *; rw [hrp]; exact h2
+          · refine ⟨fun _ => by rw [f7]; exact hheld, ?_, ?_⟩
+            · intro x hx; rw [f7, hheld] at hx; cases hx
+            · intro _ x hx; rw [f7, hheld] at hx; cases hx
+        · rw [hgSo t hts] at hT'
+          exact sl_sub_untouched hi rfl rfl hcfg hrp hgP hT'
+            (fun q cn h1 h2 => ⟨cn, by rw [hgCo q t hts]; exact h1, h2⟩)
+      · intro a b cn' hcn'
+        by_cases hbs : b = s
+        · subst hbs
+          rw [hgC] at hcn'
+          simp only [if_true] at hcn'
+          cases hC : getC w a b with
+          | none => rw [hC] at hcn'; simp [slDetR] at hcn'
+          | some cn =>
+            rw [hC] at hcn'
+            cases hsa : cn.sAtt with
+            | false => simp [slDetR, hsa] at hcn'
+            | true =>
+              rw [slDetR_some_true hsa, Option.some.injEq] at hcn'
+              obtain ⟨P, S0, hP, hS0, ct, ca⟩ := hi.slConnFacts hC
+              rw [hS] at hS0; cases hS0
+              have hhd : heldOf S' cn.pid = heldOf S cn.pid := by unfold heldOf; rw [f7]
+              have ca' := ca.congr (P' := P) (S' := S') rfl rfl hhd f1
+              subst hcn'
+              refine ⟨P, S', hP, hgSs, ⟨Or.inl hsa, ct.sAtt, ?_⟩,
+                ⟨ca'.usedLen, ca'.subCap, ca'.borrowMax, ca'.total, ca'.borrow, ca'.nodup,
+                 ca'.used, ca'.idle⟩⟩
+              constructor
+              · intro h; cases h
+              · rintro ⟨k, hk⟩; rw [f8, abs_init_none] at hk; cases hk
+        · rw [hgCo a b hbs] at hcn'
+          obtain ⟨P, Sb, hP, hSb, ct, ca⟩ := hi.slConnFacts hcn'
+          exact ⟨P, Sb, hP, by rw [hgSo b hbs]; exact hSb, ct, ca⟩
+
+/-! ### `.csub` -/
+
+/-- `.csub`, first step: the new port object exists but is not registered yet -/
+theorem csub_init_inv {A : GA} {w : World} {s buffer histReq tbrCap : Nat}
+    (hi : Inv {} A w) (hnone : getS w s = none) :
+    Inv { ns := some s } A
+      { w with subs := w.subs ++ [(s, ({
+          buffer := buffer, histReq := histReq,
+          conns := List.replicate w.cfg.maxPubs none,
+          storage := SlotMap.init (tbrCap + w.cfg.maxPubs), tbrCap := tbrCap,
+          snapCtr := w.pubReg.counter, snap := w.pubReg.slots } : Sub))] } := by
+  generalize hS0 : ({
+          buffer := buffer, histReq := histReq,
+          conns := List.replicate w.cfg.maxPubs none,
+          storage := SlotMap.init (tbrCap + w.cfg.maxPubs), tbrCap := tbrCap,
+          snapCtr := w.pubReg.counter, snap := w.pubReg.slots } : Sub) = S0
+  have hS0f : S0.alive = true ∧ S0.ex = true ∧ S0.conns = List.replicate w.cfg.maxPubs none ∧
+      S0.snap = w.pubReg.slots ∧ S0.tbr = [] ∧ S0.held = [] ∧
+      S0.storage = SlotMap.init (tbrCap + w.cfg.maxPubs) := by
+    subst hS0; simp
+  obtain ⟨f1, f2, f4, f5, f6, f7, f8⟩ := hS0f
+  have hres : ∃ w', { w with subs := w.subs ++ [(s, S0)] } = w' ∧
+      w'.cfg = w.cfg ∧ w'.pubReg = w.pubReg ∧ w'.subReg = w.subReg ∧
+      (∀ q, getP w' q = getP w q) ∧
+      (∀ t, getS w' t = if t = s then some S0 else getS w t) ∧
+      (∀ a b, getC w' a b = getC w a b) ∧ w'.conns = w.conns :=
+    ⟨_, rfl, rfl, rfl, rfl, fun _ => rfl, fun t => sl_getS_append w s t S0 hnone, fun _ _ => rfl, rfl⟩
+  obtain ⟨w', hw'e, hcfg, hrp, hrs, hgP, hgS, hgC, hcs⟩ := hres
+  rw [hw'e]
+  have r := hi.top.reg
+  have hne : ∀ t T, getS w t = some T → t ≠ s := by
+    intro t T h e; rw [e, hnone] at h; cases h
+  have hgSo : ∀ t, t ≠ s → getS w' t = getS w t := by intro t h; rw [hgS]; simp [h]
+  have hgSs : getS w' s = some S0 := by rw [hgS]; simp
+  have sreg' : ∀ t T, SReg w t T → SReg w' t T := by
+    intro t T; unfold SReg; rw [hrs]; exact id
+  have hnp0 : ∀ p, ({} : GT).np ≠ some p := fun p h => by cases h
+  have hns0 : ∀ t, ({} : GT).ns ≠ some t := fun t h => by cases h
+  apply sl_inv_of_sub_change hi hcfg hgP
+  · refine ⟨by rw [hrp, hcfg]; exact r.lenP, by rw [hrs, hcfg]; exact r.lenS,
+      ?_, ?_, ?_, ?_, ?_, ?_, ?_, ?_, by rw [hcs]; exact r.nodup⟩
+    · intro i p hp
+      rw [hrp] at hp
+      obtain ⟨P, hP, h1, h2⟩ := r.r1 i p hp
+      exact ⟨P, by rw [hgP]; exact hP, h1, h2⟩
+    · intro i e he
+      rw [hrs] at he
+      obtain ⟨T, hT, h1, h2⟩ := r.r2 i e he
+      exact ⟨T, by rw [hgSo _ (hne _ T hT)]; exact hT, h1, h2⟩
+    · intro p P hP _
+      rw [hgP] at hP
+      have := r.r3p p P hP (hnp0 p)
+      unfold PReg at *; rw [hrp]; exact this
+    · intro t T hT hn
+      have hts : t ≠ s := fun e => hn (by rw [e])
+      rw [hgSo t hts] at hT
+      exact sreg' t T (r.r3s t T hT (hns0 t))
+    · intro p hp; cases hp
+    · intro t ht i e he hes
+      cases ht
+      rw [hrs] at he
+      obtain ⟨T, hT, _, _⟩ := r.r2 i e he
+      exact hne _ T hT hes
+    · intro p hp; cases hp
+    · intro t ht
+      cases ht
+      exact ⟨S0, hgSs, f1⟩
+  · intro t T hT _ hsr
+    have hts := hne t T hT
+    exact ⟨T, by rw [hgSo t hts]; exact hT, rfl, sreg' t T hsr,
+      fun h => hts (Option.some.inj h).symm, id⟩
+  · intro p t cn hcn hsa _
+    exact ⟨cn, by rw [hgC]; exact hcn, hsa, rfl⟩
+  · intro t T' hT'
+    by_cases hts : t = s
+    · subst hts; rw [hgSs] at hT'; cases hT'
+      refine ⟨⟨by rw [f4, List.length_replicate, hcfg],
+        by rw [f5, hcfg]; exact r.lenP,
+        fun _ => f2,
+        (fun h => by rw [f2] at h; cases h),
+        by rw [f8]; exact winv_init _, ?_, ?_, ?_, ?_,
+        by rw [f6]; exact List.nodup_nil, by rw [f6]; exact (fun k hk => by cases hk)⟩, ?_⟩
+      · intro k p hk; rw [f8, abs_init_none] at hk; cases hk
+      · intro k1 k2 p hk; rw [f8, abs_init_none] at hk; cases hk
+      · intro j k hj
+        rw [f4, List.getElem?_replicate] at hj
+        split at hj <;> simp at hj
+      · intro j p hj
+        rw [f5] at hj
+        obtain ⟨P, hP, h1, h2⟩ := r.r1 j p hj
+        refine ⟨P, by rw [hgP]; exact hP, h2, Or.inr ?_, fun h => by cases h⟩
+        rw [hrp, h2]; exact hj
+      · refine ⟨fun _ => f7, ?_, ?_⟩
+        · intro x hx; rw [f7] at hx; cases hx
+        · intro _ x hx; rw [f7] at hx; cases hx
+    · rw [hgSo t hts] at hT'
+      exact sl_sub_untouched (G' := { ns := some s }) hi rfl rfl hcfg hrp hgP hT'
+        (fun q cn h1 h2 => ⟨cn, by rw [hgC]; exact h1, h2⟩)
+  · intro a b cn hcn
+    rw [hgC] at hcn
+    obtain ⟨P, Sb, hP, hSb, ct, ca⟩ := hi.slConnFacts hcn
+    exact ⟨P, Sb, hP, by rw [hgSo b (hne b Sb hSb)]; exact hSb, ct, ca⟩
+
+/-- `.csub`, registration succeeded -/
+theorem csub_ok_inv {A : GA} {w1 : World} {s slot : Nat} {S1 : Sub} {e : SubEntry}
+    {reg : Reg SubEntry}
+    (hi : Inv { ns := some s } A w1) (he : e.sid = s) (hadd : w1.subReg.add e = some (reg, slot))
+    (hS1 : getS w1 s = some S1) :
+    Inv {} A { setS w1 s { S1 with slot := slot } with subReg := reg } := by
+  have r := hi.top.reg
+  have st := hi.top.subs s S1 hS1
+  -- the registry
+  have hregf : reg.slots = w1.subReg.slots.set slot (some e) ∧
+      w1.subReg.slots[slot]? = some none := by
+    unfold Reg.add at hadd
+    cases hf : firstFree w1.subReg.slots 0 with
+    | none => rw [hf] at hadd; cases hadd
+    | some i =>
+      rw [hf] at hadd
+      simp only [Option.some.injEq, Prod.mk.injEq] at hadd
+      obtain ⟨h1, h2⟩ := hadd
+      subst h2
+      refine ⟨by rw [← h1], ?_⟩
+      have := (sl_firstFree_spec _ _ _ hf).2
+      simpa using this
+  obtain ⟨hrs0, hfree⟩ := hregf
+  have hlt : slot < w1.subReg.slots.length := (List.getElem?_eq_some_iff.mp hfree).1
+  have hal : S1.alive = true := by
+    obtain ⟨T, hT, h⟩ := r.nsAlive s rfl
+    rw [hS1] at hT; cases hT; exact h
+  generalize hS' : ({ S1 with slot := slot } : Sub) = S'
+  have hS'f : S'.alive = S1.alive ∧ S'.ex = S1.ex ∧ S'.slot = slot ∧ S'.conns = S1.conns ∧
+      S'.snap = S1.snap ∧ S'.tbr = S1.tbr ∧ S'.held = S1.held ∧ S'.storage = S1.storage := by
+    subst hS'; simp
+  obtain ⟨f1, f2, f3, f4, f5, f6, f7, f8⟩ := hS'f
+  have hres : ∃ w', { setS w1 s S' with subReg := reg } = w' ∧
+      w'.cfg = w1.cfg ∧ w'.pubReg = w1.pubReg ∧
+      w'.subReg.slots = w1.subReg.slots.set slot (some e) ∧ (∀ q, getP w' q = getP w1 q) ∧
+      (∀ t, getS w' t = if t = s then some S' else getS w1 t) ∧
+      (∀ a b, getC w' a b = getC w1 a b) ∧ w'.conns = w1.conns := by
+    refine ⟨_, rfl, rfl, rfl, hrs0, fun _ => rfl, ?_, fun _ _ => rfl, rfl⟩
+    intro t
+    show getS (setS w1 s S') t = _
+    simp [hS1]
+  obtain ⟨w', hw'e, hcfg, hrp, hrs, hgP, hgS, hgC, hcs⟩ := hres
+  rw [hw'e]
+  have hgSo : ∀ t, t ≠ s → getS w' t = getS w1 t := by intro t h; rw [hgS]; simp [h]
+  have hgSs : getS w' s = some S' := by rw [hgS]; simp
+  have hnp0 : ∀ p, ({ ns := some s } : GT).np ≠ some p := fun p h => by cases h
+  have hns0 : ∀ t, ({} : GT).ns ≠ some t := fun t h => by cases h
+  have hns1 : ∀ t, t ≠ s → ({ ns := some s } : GT).ns ≠ some t :=
+    fun t h h' => h (Option.some.inj h').symm
+  have hsl : ∀ (i : Nat) (e' : SubEntry), w'.subReg.slots[i]? = some (some e') ↔
+      ((i = slot ∧ e' = e) ∨ (i ≠ slot ∧ w1.subReg.slots[i]? = some (some e'))) := by
+    intro i e'
+    rw [hrs, List.getElem?_set]
+    by_cases h : slot = i
+    · subst h
+      simp only [if_true, hlt, Option.some.injEq, ne_eq, not_true_eq_false, false_and, or_false,
+        true_and]
+      exact ⟨fun h => h.symm, fun h => h.symm⟩
+    · have h' : ¬ i = slot := fun e => h e.symm
+      simp only [h, if_false, h', false_and, false_or, ne_eq, not_false_eq_true, true_and]
+  have keep : ∀ t T, SReg w1 t T → SReg w' t T := by
+    intro t T hsr
+    rcases hsr with h | ⟨e', he', hes⟩
+    · exact Or.inl h
+    · refine Or.inr ⟨e', (hsl _ e').mpr (Or.inr ⟨?_, he'⟩), hes⟩
+      intro heq
+      rw [heq, hfree] at he'
+      cases he'
+  apply sl_inv_of_sub_change hi hcfg hgP
+  · refine ⟨by rw [hrp, hcfg]; exact r.lenP, by rw [hrs, hcfg, List.length_set]; exact r.lenS,
+      ?_, ?_, ?_, ?_, ?_, ?_, ?_, ?_, by rw [hcs]; exact r.nodup⟩
+    · intro i p hp
+      rw [hrp] at hp
+      obtain ⟨P, hP, h1, h2⟩ := r.r1 i p hp
+      exact ⟨P, by rw [hgP]; exact hP, h1, h2⟩
+    · intro i e' he'
+      rcases (hsl i e').mp he' with ⟨h1, h2⟩ | ⟨_, h2⟩
+      · subst h1; subst h2
+        exact ⟨S', by rw [he]; exact hgSs, f1.trans hal, f3⟩
+      · obtain ⟨T, hT, g1, g2⟩ := r.r2 i e' h2
+        have := r.nsFresh s rfl i e' h2
+        exact ⟨T, by rw [hgSo _ this]; exact hT, g1, g2⟩
+    · intro p P hP _
+      rw [hgP] at hP
+      have := r.r3p p P hP (hnp0 p)
+      unfold PReg at *; rw [hrp]; exact this
+    · intro t T hT _
+      by_cases hts : t = s
+      · subst hts; rw [hgSs] at hT; cases hT
+        refine Or.inr ⟨e, ?_, he⟩
+        rw [f3]; exact (hsl slot e).mpr (Or.inl ⟨rfl, rfl⟩)
+      · rw [hgSo t hts] at hT
+        exact keep t T (r.r3s t T hT (hns1 t hts))
+    · intro p hp; cases hp
+    · intro t ht; cases ht
+    · intro p hp; cases hp
+    · intro t ht; cases ht
+  · intro t T hT hn hsr
+    have hts : t ≠ s := fun e => hn (by rw [e])
+    exact ⟨T, by rw [hgSo t hts]; exact hT, rfl, keep t T hsr, hns0 t, id⟩
+  · intro p t cn hcn hsa _
+    exact ⟨cn, by rw [hgC]; exact hcn, hsa, rfl⟩
+  · intro t T' hT'
+    by_cases hts : t = s
+    · subst hts; rw [hgSs] at hT'; cases hT'
+      obtain ⟨h1, h2⟩ := sl_sub_untouched (G' := {}) hi rfl rfl hcfg hrp hgP hS1
+        (fun q cn h1 h2 => ⟨cn, by rw [hgC]; exact h1, h2⟩)
+      refine ⟨h1.slChS f2 f4 f5 f8 f6 (by rw [f1, f2]; exact st.aliveEx), ?_⟩
+      obtain ⟨g1, g2, g3⟩ := h2
+      exact ⟨by rw [f2, f7]; exact g1, by rw [f7, f8]; exact g2, by rw [f1, f7]; exact g3⟩
+    · rw [hgSo t hts] at hT'
+      exact sl_sub_untouched (G' := {}) hi rfl rfl hcfg hrp hgP hT'
+        (fun q cn h1 h2 => ⟨cn, by rw [hgC]; exact h1, h2⟩)
+  · intro a b cn hcn
+    rw [hgC] at hcn
+    obtain ⟨P, Sb, hP, hSb, ct, ca⟩ := hi.slConnFacts hcn
+    by_cases hbs : b = s
+    · subst hbs; rw [hS1] at hSb; cases hSb
+      have hhd : heldOf S' cn.pid = heldOf S1 cn.pid := by unfold heldOf; rw [f7]
+      exact ⟨P, S', hP, hgSs, ⟨ct.att, ct.sAtt, by rw [f8]; exact ct.rAtt⟩,
+        ca.congr rfl rfl hhd f1⟩
+    · exact ⟨P, Sb, hP, by rw [hgSo b hbs]; exact hSb, ct, ca⟩
+
+/-- `.csub`, registry full: the port is dropped again -/
+theorem csub_fail_inv {A : GA} {w1 : World} {s : Nat} {S1 : Sub}
+    (hi : Inv { ns := some s } A w1) (hS1 : getS w1 s = some S1) :
+    Inv {} A { (subDestroyKeys w1 s (SlotMap.items S1.storage)) with
+      subs := (subDestroyKeys w1 s (SlotMap.items S1.storage)).subs.filter fun e => e.1 ≠ s } := by
+  have r := hi.top.reg
+  have hnp0 : ∀ p, ({ ns := some s } : GT).np ≠ some p := fun p h => by cases h
+  have hns0 : ∀ t, ({} : GT).ns ≠ some t := fun t h => by cases h
+  have hns1 : ∀ t, t ≠ s → ({ ns := some s } : GT).ns ≠ some t :=
+    fun t h h' => h (Option.some.inj h').symm
+  -- no sender is attached to a connection of `s`
+  have hnos : ∀ a cn, getC w1 a s = some cn → cn.sAtt = false := by
+    intro a cn hcn
+    cases hsa : cn.sAtt with
+    | false => rfl
+    | true =>
+      exfalso
+      obtain ⟨_, hsid, _⟩ := getC_some hcn
+      obtain ⟨P, S, hP, _, ct⟩ := hi.top.conns a s cn hcn
+      have hm := ct.sAtt.mp hsa
+      rw [hsid] at hm
+      obtain ⟨i, hi'⟩ := List.mem_iff_getElem?.mp hm
+      obtain ⟨_, _, _, _, hns, _⟩ := (hi.top.pubs a P hP).conn i s hi'
+      exact hns rfl
+  have hres : ∃ w', { (subDestroyKeys w1 s (SlotMap.items S1.storage)) with
+      subs := (subDestroyKeys w1 s (SlotMap.items S1.storage)).subs.filter fun e => e.1 ≠ s } = w' ∧
+      w'.cfg = w1.cfg ∧ w'.pubReg = w1.pubReg ∧ w'.subReg = w1.subReg ∧
+      (∀ q, getP w' q = getP w1 q) ∧
+      (∀ t, getS w' t = if t = s then none else getS w1 t) ∧
+      (∀ a b, getC w' a b = if b = s then none else getC w1 a b) ∧
+      w'.conns.Pairwise fun a b => ¬ (a.pid = b.pid ∧ a.sid = b.sid) := by
+    obtain ⟨g1, g2, g3, g4, g5, _, g7⟩ :=
+      subDestroyKeys_obs s (SlotMap.items S1.storage) w1 r.nodup
+    refine ⟨_, rfl, g1, g2, g3, fun q => sl_getP_of_pubs g4 q, ?_, ?_, g7⟩
+    · intro t
+      rw [sl_getS_filter, sl_getS_of_subs g5]
+    · intro a b
+      show getC (subDestroyKeys w1 s (SlotMap.items S1.storage)) a b = _
+      rw [subDestroyKeys_items hi.top hS1]
+      by_cases hb : b = s
+      · subst hb
+        simp only [if_true]
+        cases hC : getC w1 a b with
+        | none => rfl
+        | some cn => exact slDetR_some_false (hnos a cn hC)
+      · simp only [hb, if_false]
+  obtain ⟨w', hw'e, hcfg, hrp, hrs, hgP, hgS, hgC, hnd⟩ := hres
+  rw [hw'e]
+  have hgSo : ∀ t, t ≠ s → getS w' t = getS w1 t := by intro t h; rw [hgS]; simp [h]
+  have hgSs : getS w' s = none := by rw [hgS]; simp
+  have hgCo : ∀ a b, b ≠ s → getC w' a b = getC w1 a b := by intro a b h; rw [hgC]; simp [h]
+  have hne : ∀ t T, getS w' t = some T → t ≠ s := by
+    intro t T h e; rw [e, hgSs] at h; cases h
+  have sreg' : ∀ t T, SReg w1 t T → SReg w' t T := by
+    intro t T; unfold SReg; rw [hrs]; exact id
+  apply sl_inv_of_sub_change hi hcfg hgP
+  · refine ⟨by rw [hrp, hcfg]; exact r.lenP, by rw [hrs, hcfg]; exact r.lenS,
+      ?_, ?_, ?_, ?_, ?_, ?_, ?_, ?_, hnd⟩
+    · intro i p hp
+      rw [hrp] at hp
+      obtain ⟨P, hP, h1, h2⟩ := r.r1 i p hp
+      exact ⟨P, by rw [hgP]; exact hP, h1, h2⟩
+    · intro i e' he'
+      rw [hrs] at he'
+      obtain ⟨T, hT, g1, g2⟩ := r.r2 i e' he'
+      have := r.nsFresh s rfl i e' he'
+      exact ⟨T, by rw [hgSo _ this]; exact hT, g1, g2⟩
+    · intro p P hP _
+      rw [hgP] at hP
+      have := r.r3p p P hP (hnp0 p)
+      unfold PReg at *; rw [hrp]; exact this
+    · intro t T hT _
+      have hts := hne t T hT
+      rw [hgSo t hts] at hT
+      exact sreg' t T (r.r3s t T hT (hns1 t hts))
+    · intro p hp; cases hp
+    · intro t ht; cases ht
+    · intro p hp; cases hp
+    · intro t ht; cases ht
+  · intro t T hT hn hsr
+    have hts : t ≠ s := fun e => hn (by rw [e])
+    exact ⟨T, by rw [hgSo t hts]; exact hT, rfl, sreg' t T hsr, hns0 t, id⟩
+  · intro p t cn hcn hsa hn
+    have hts : t ≠ s := fun e => hn (by rw [e])
+    exact ⟨cn, by rw [hgCo p t hts]; exact hcn, hsa, rfl⟩
+  · intro t T' hT'
+    have hts := hne t T' hT'
+    rw [hgSo t hts] at hT'
+    exact sl_sub_untouched (G' := {}) hi rfl rfl hcfg hrp hgP hT'
+      (fun q cn h1 h2 => ⟨cn, by rw [hgCo q t hts]; exact h1, h2⟩)
+  · intro a b cn hcn
+    have hbs : b ≠ s := by
+      intro e; rw [hgC] at hcn; simp [e] at hcn
+    rw [hgCo a b hbs] at hcn
+    obtain ⟨P, Sb, hP, hSb, ct, ca⟩ := hi.slConnFacts hcn
+    exact ⟨P, Sb, hP, by rw [hgSo b hbs]; exact hSb, ct, ca⟩
 
 end Iox2.PubSub.C02P
